@@ -343,6 +343,27 @@ def handler : Handler := fun op j =>
       ("coded", jFs (les.map (x3ToNext fl Float.ofInt 1.0 w))),
       ("doc", jFs (les.map (x3Overlap fl Float.ofInt 1.0 w))),
       ("ceil", jFs (les.map (x3ToNextCeil cl Float.ofInt w)))]))
+  | "xray3" => do
+    -- one view of XRayTransform3D from the left edges of the voxel footprints: indices and shares by the model's
+    -- `floor` / `x3ToNext`, four-pixel scatter (`xray3Project`), documented area-fraction matrix (`xray3Matrix`)
+    let le0 ← fFloats? j "le0"; let le1 ← fFloats? j "le1"; let w ← fFloat? j "w"
+    let d0 ← fNat? j "d0"; let d1 ← fNat? j "d1"; let x ← fFloats? j "x"
+    let nv := le0.length
+    let fl : Float → Int := fun p => (Float.floor p).toInt64.toInt
+    let a0 := le0.toArray; let a1 := le1.toArray
+    let I0 : Nat → Int := fun p => fl (a0.getD p 0.0)
+    let I1 : Nat → Int := fun p => fl (a1.getD p 0.0)
+    let t0a := (le0.map (x3ToNext fl Float.ofInt 1.0 w)).toArray
+    let t1a := (le1.map (x3ToNext fl Float.ofInt 1.0 w)).toArray
+    let t0 : V Float := fun p => t0a.getD p 0.0
+    let t1 : V Float := fun p => t1a.getD p 0.0
+    let basis (q : Nat) : V Float := fun p => if p = q then 1.0 else 0.0
+    let y := xray3Project nv I0 I1 t0 t1 w (vecOf x) d0 d1
+    let covered := (List.range nv).all (fun p =>
+      decide (0.0 ≤ a0.getD p 0.0 ∧ a0.getD p 0.0 + w ≤ d0.toFloat ∧ 0.0 ≤ a1.getD p 0.0 ∧ a1.getD p 0.0 + w ≤ d1.toFloat))
+    some (ok (jObj [("mat", jMat (fun q p => xray3Project nv I0 I1 t0 t1 w (basis p) d0 d1 q) (d0 * d1) nv),
+      ("doc", jMat (xray3Matrix I0 I1 t0 t1 w d1) (d0 * d1) nv),
+      ("mass_out", jF (sumTo (d0 * d1) y)), ("mass_in", jF (sumTo nv (vecOf x))), ("covered", jB covered)]))
   | "dftinit" => do
     let shape ← fNats? j "shape"
     let axes := fInts? j "axes"
